@@ -16,6 +16,7 @@ import enum
 import itertools
 import operator
 import pickle
+import re
 
 import dns.immutable
 import dns._immutable_ctx as ictx
@@ -919,7 +920,7 @@ def cases(ctx):
         c = gen_set_case(rng, rng.choice([4, 8, 12, 20] if ctx.quick else [4, 8, 12]))
         if c is not None:
             yield "set", c
-    for _ in range(ctx.n(900, 6000)):
+    for _ in range(ctx.n(900, 4500)):
         c = gen_rds_case(rng, rng.choice([4, 8, 12, 20] if ctx.quick else [4, 8, 12, 16]))
         if c is not None:
             yield "rds", c
@@ -940,10 +941,10 @@ def cases(ctx):
         if u is not None:
             yield "cmp", [3, u[0], u[1]]
     # ---- immutable guard scripts, constify
-    for _ in range(ctx.n(300, 2500)):
+    for _ in range(ctx.n(300, 2000)):
         # the four objects are created first, so every later action refers to an existing object
         yield "guard", [4, [[3, o, []] for o in range(4)] + gen_acts(rng, 3, set(range(4)), True)]
-    for _ in range(ctx.n(300, 2500)):
+    for _ in range(ctx.n(300, 2000)):
         yield "constify", [5, gen_pval(rng, 3)]
 
 
@@ -1394,7 +1395,14 @@ def oracle(ctx, kind, case, out):
     F = []
 
     def fail(what, **kw):
-        F.append({"kind": kind + ":" + kw.pop("sig", "spec"), "what": what, "impl": out if len(repr(out)) < 2000 else "(large)", **kw})
+        d = {"kind": kind + ":" + kw.pop("sig", "spec"), "what": what, "impl": out if len(repr(out)) < 2000 else "(large)", **kw}
+        m = re.match(r"step (\d+) ", what)
+        if m and case[0] in (1, 2) and not isinstance(out, Err):
+            # operation sequences: the shortest failing prefix is the replay
+            n = int(m.group(1)) + 1
+            d["case"] = [case[0], case[1], case[2][:n]]
+            d["impl"] = out[:n]
+        F.append(d)
 
     if isinstance(out, Err):
         if out.code != 900:
@@ -1663,3 +1671,44 @@ def extra(ctx):
     ctx.notes["extra_evaluations"] = count[0]
     ctx.notes["extra_nontrivial"] = len(insts) + len(classes)
     return F
+
+
+# ------------------------------------------------------------------ widened search
+# used by lib when a proof or the correspondence broke but the oracle found nothing among the
+# cases of this run: more random sequences (implementation + oracle only, no Coq), and every
+# prefix-neighbourhood of the disagreeing cases
+
+
+def widen(ctx, disagreements):
+    import random
+
+    found = []
+    seen = 0
+    for d in disagreements[:50]:
+        case = d.get("case")
+        if not case or case[0] not in (1, 2):
+            continue
+        out = impl(case)
+        for f in oracle(ctx, "widen", case, _norm(out)) or []:
+            f.setdefault("case", case)
+            found.append(f)
+    rng = random.Random(ctx.seed * 7919 + 13)
+    for i in range(6000 if ctx.quick else 30000):
+        c = gen_rds_case(rng, rng.choice([8, 16, 24])) if i % 3 else gen_set_case(rng, rng.choice([8, 16, 24]))
+        if c is None:
+            continue
+        seen += 1
+        out = _norm(impl(c))
+        for f in oracle(ctx, "widen", _norm(c), out) or []:
+            f.setdefault("case", c)
+            found.append(f)
+        if len(found) >= 3:
+            break
+    ctx.notes["widened_cases"] = seen
+    return found
+
+
+def _norm(v):
+    import lib
+
+    return lib.normalize(v)
